@@ -31,7 +31,23 @@ require golang.org/x/sys v0.21.0 // indirect
 // buildHarness generates the overlay for the current working tree of /repo and
 // builds /verif/harness against it. Nothing under /repo is touched.
 func buildHarness(scratch, flavour string) (string, map[string]interface{}, error) {
-	info := map[string]interface{}{"flavour": flavour}
+	bin, info, err := buildHarness1(scratch, flavour, true)
+	if err == nil {
+		return bin, info, nil
+	}
+	// an edit to /repo may have made an injected observation file stop compiling:
+	// fall back to the hook-free build of the same harness
+	bin, info2, err2 := buildHarness1(scratch, flavour, false)
+	if err2 != nil {
+		return "", info, err
+	}
+	info2["hooks"] = "unavailable: injected observation files did not compile against this tree; hook-free fallback"
+	info2["hooks_error"] = trunc(err.Error(), 600)
+	return bin, info2, nil
+}
+
+func buildHarness1(scratch, flavour string, hooks bool) (string, map[string]interface{}, error) {
+	info := map[string]interface{}{"flavour": flavour, "hooks": "injected by overlay"}
 	ov := map[string]string{}
 	// 1. the legacy root package has no go.mod: give it one (overlay only)
 	lm := filepath.Join(scratch, "legacy.go.mod")
@@ -44,7 +60,7 @@ func buildHarness(scratch, flavour string) (string, map[string]interface{}, erro
 	// 2. re-export package for the internal codec
 	ov[filepath.Join(repoDir, "v5", "zzverifjson", "export.go")] = filepath.Join(verifDir, "overlay", "zzverifjson", "export.go")
 	// 3. flavour-specific generated files
-	if err := genOverlay(scratch, flavour, ov, info); err != nil {
+	if err := genOverlay(scratch, flavour, ov, info, hooks); err != nil {
 		return "", info, err
 	}
 	ovPath := filepath.Join(scratch, "overlay.json")
@@ -53,14 +69,22 @@ func buildHarness(scratch, flavour string) (string, map[string]interface{}, erro
 
 	// the harness module is copied so that go.sum / go.mod edits never touch /verif
 	hdir := filepath.Join(scratch, "harness")
+	os.RemoveAll(hdir)
 	if out, err := exec.Command("cp", "-r", filepath.Join(verifDir, "harness"), hdir).CombinedOutput(); err != nil {
 		return "", info, fmt.Errorf("copy harness: %v %s", err, out)
 	}
 	bin := filepath.Join(scratch, "h")
 	t0 := time.Now()
 	args := []string{"build", "-overlay", ovPath, "-o", bin}
+	tags := []string{}
 	if flavour == "shim" {
-		args = append(args, "-tags", "shim")
+		tags = append(tags, "shim")
+	}
+	if !hooks {
+		tags = append(tags, "nohooks")
+	}
+	if len(tags) > 0 {
+		args = append(args, "-tags", strings.Join(tags, ","))
 	}
 	args = append(args, ".")
 	cmd := exec.Command("go", args...)
